@@ -115,6 +115,10 @@ class CliFailures(Stream):
                 case["corrupt"] = [[n, v] for v in bad]
                 case["corrupt_kind"] = rng.choice(["not-a-zip", "unparsable-requirement"])
                 case["corrupt_more_files"] = [[n, v, rng.randint(1, 3)] for v in bad]
+        if rng.random() < 0.25:
+            # a perfectly usable wheel whose METADATA was written in another encoding (a Latin-1 author name)
+            n = rng.choice(names)
+            case["latin1_headers"] = [[[n, v], "Author: Jos\xe9 Nu\xf1ez\nMaintainer: Fran\xe7ois\n"] for v in case["universe"][n]]
         return case
 
     def impl(self, case):
@@ -163,6 +167,14 @@ class CliFailures(Stream):
         run = SS.Run(dict(case, universe={n: {v: rs for v, rs in vs.items() if (n, v) not in bad} for n, vs in case["universe"].items()}))
         r["region"] = run.region()
         r["mem_outcome"] = run.outcome
+        # releases a walk-back excluded on the way (the temporary `project!=version` requirers are gone again when the
+        # diagnostic is printed, so the requirement it names is weaker than the one that failed)
+        excl = set()
+        for q, _ok in run.obs.get("possible_reqs", []):
+            for sp in q.specifier:
+                if sp.operator == "!=" and not sp.version.endswith(".*"):
+                    excl.add((GL.norm(q.project_name), str(GL.V(sp.version))))
+        r["maybe_excluded"] = sorted(map(list, excl))
         return r
 
     @staticmethod
@@ -199,6 +211,8 @@ class CliFailures(Stream):
             fl.append("corrupt-wheel")
         if case.get("corrupt_more_files"):
             fl.append("unreadable-releases-in-several-files-each")
+        if case.get("latin1_headers"):
+            fl.append("metadata-not-utf-8")
         if case.get("twin"):
             fl.append("unreadable-same-named-archive-listed-first")
         if r["exception"]:
@@ -275,8 +289,13 @@ class CliFailures(Stream):
             except Exception:
                 spec = None
             if spec is not None:
-                ok = [v for v in offered if spec.contains(str(GL.V(v)), prereleases=True)]
-                if ok:
+                gone = {tuple(x) for x in r.get("maybe_excluded", [])}
+                ok = [v for v in offered if spec.contains(str(GL.V(v)), prereleases=True) and (key, str(GL.V(v))) not in gone]
+                # "(or a project whose metadata cannot be read)": a release of the named project that the requirement admits
+                # is unreadable - the failure may name it (the listing under the diagnostic says `bad metadata`)
+                unreadable = [v for n, v in list(case["corrupt"]) + [x[:2] for x in case.get("corrupt_more_files", [])]
+                              if GL.norm(n) == key and spec.contains(str(GL.V(v)), prereleases=True)]
+                if ok and not unreadable:
                     fails.append(("C09/named-requirement-is-satisfiable/" + region, {"requirement": m.group(2), "satisfying": ok}))
                 if kind == "impossible":
                     grid = ["%d.%d" % (a, b) for a in range(0, 12) for b in (0, 1, 5, 9)] + ["0.0.1", "9.9", "1.5.1", "2.0.post1", "3.0.1"]
@@ -345,7 +364,7 @@ class CliFailures(Stream):
     def shrink(self, case):
         from rv.props.c07 import CliVariants
         if case["corrupt"]:
-            yield dict(case, corrupt=[])
+            yield dict(case, corrupt=[], corrupt_more_files=[])
         for c in CliVariants.shrink(self, case):
             yield c
 
